@@ -35,6 +35,17 @@ m("c05-attr-len-check", "src/common/frames.rs", "    if len > buf.len() {\n     
 m("c05-short-datagram", "src/common/fragment.rs", "        if buf.len() < 4 {\n            return None;\n        }", "", ["C05", "C11"])
 m("c05-udp-v6-len", "src/common/socks.rs", "                if body.len() < 18 {", "                if body.len() < 16 {", ["C05"])
 
+# ---- C09
+m("c09-swap-5-6", "milu/src/parser.rs", 'op_rule!(op_6, op_7, alt((tag("*"), tag("/"), tag("%"),)));\nop_rule!(op_5, op_6, alt((tag("+"), tag("-"))));', 'op_rule!(op_6, op_7, alt((tag("+"), tag("-"))));\nop_rule!(op_5, op_6, alt((tag("*"), tag("/"), tag("%"),)));', ["C09"])
+m("c09-ge-shadowed", "milu/src/parser.rs", 'alt((tag(">="), tag(">"), tag("<="), tag("<")))', 'alt((tag(">"), tag(">="), tag("<="), tag("<")))', ["C09"])
+m("c09-fold-right", "milu/src/parser.rs", "                    expr.into_iter().fold(p1, |p1, val| {\n                        let (op, p2) = val;\n                        parse2(op, p1, p2).into()\n                    })", "                    {\n                        let mut items: Vec<(Span, Value)> = expr;\n                        let mut acc: Option<Value> = None;\n                        let mut first = Some(p1);\n                        // right fold\n                        let mut ops = vec![];\n                        let mut vals = vec![first.take().unwrap()];\n                        for (o, v) in items.drain(..) { ops.push(o); vals.push(v); }\n                        let mut r = vals.pop().unwrap();\n                        while let Some(o) = ops.pop() { let l = vals.pop().unwrap(); r = parse2(o, l, r); }\n                        let _ = &mut acc;\n                        r\n                    }", ["C09"])
+m("c09-no-inline-comment", "milu/src/parser.rs", "recognize(many0(alt((multispace1, eol_comment, inline_comment))))(i)", "recognize(many0(alt((multispace1, eol_comment))))(i)", ["C09"])
+m("c09-xor-above-and", "milu/src/parser.rs", 'op_rule!(op_2, op_2_3, alt((tag("&&"), tag_no_case("and"))));\nop_rule!(op_1_5, op_2, alt((tag("^^"), tag_no_case("xor"))));', 'op_rule!(op_2, op_2_3, alt((tag("^^"), tag_no_case("xor"))));\nop_rule!(op_1_5, op_2, alt((tag("&&"), tag_no_case("and"))));', ["C09"])
+m("c09-and-case-sensitive", "milu/src/parser.rs", 'alt((tag("&&"), tag_no_case("and")))', 'alt((tag("&&"), tag("and")))', ["C09"])
+m("c09-unary-binds-looser", "milu/src/parser.rs", 'map(nom_tuple((alt((tag("!"), tag("~"), tag("-"))), op_7)),', 'map(nom_tuple((alt((tag("!"), tag("~"), tag("-"))), op_6)),', ["C09"])
+m("c09-cond-left-assoc", "milu/src/parser.rs", "                terminated(op_1,ws(tag(\"?\"))),\n                terminated(op_0,ws(tag(\":\"))),\n                op_0", "                terminated(op_1,ws(tag(\"?\"))),\n                terminated(op_0,ws(tag(\":\"))),\n                op_1", ["C09"])
+m("c09-mod-is-div", "milu/src/parser.rs", '"%" => Mod::make_call(p1, p2).into(),', '"%" => Divide::make_call(p1, p2).into(),', ["C09"])
+
 def run(name, file, old, new, props):
     path = os.path.join("/repo", file)
     src = open(path).read()
